@@ -13,3 +13,4 @@ INVARIANT RaiseFollowsModel
 INVARIANT ShapeFollowsModel
 INVARIANT BackFollowsModel
 INVARIANT FallbackIsNone
+INVARIANT LitValueIsPythonValue
